@@ -322,6 +322,8 @@ type RunOpts struct {
 	Log     bool
 	Alias   map[party.ID]string
 	DupProb int // percent of deliveries that are duplicated
+	Drop    func(d *sim.Delivery) bool // deliveries the network loses (nil: none)
+	StopAll bool                       // when nothing is in flight any more, every party that is still running is stopped
 }
 
 // Run executes a session with all parties honest under a random (or FIFO) schedule.
@@ -351,10 +353,20 @@ func Run(s *Session, o RunOpts) (*RunResult, error) {
 		} else {
 			d = e.Net.Take(i)
 		}
+		if o.Drop != nil && o.Drop(d) {
+			continue
+		}
 		e.Deliver(d.To, d.Msg, "ok")
 		rr.Delivered++
 		if rr.Delivered > 100000 {
 			return rr, fmt.Errorf("runaway session")
+		}
+	}
+	if o.StopAll {
+		for _, id := range s.IDs {
+			if p := e.Parties[id]; p.Status().St == "run" {
+				p.Call(func() { p.H.Stop() })
+			}
 		}
 	}
 	rr.Results = map[party.ID]interface{}{}
